@@ -553,6 +553,10 @@ func chunkUp(r *rand.Rand, stream []byte, budget int64) []RChunk {
 		total += int64(dt)
 		cs = append(cs, RChunk{Dt: dt, Bytes: cp(stream[i : i+n])})
 		i += n
+		if r.Intn(20) == 0 && total+100 <= budget { // a delivery without bytes: nothing arrives, but its time passes
+			cs = append(cs, RChunk{Dt: 100, Bytes: hx.B{}})
+			total += 100
+		}
 	}
 	return cs
 }
